@@ -7,7 +7,12 @@ use vcore::{Cfg, Value, json};
 pub const TEXT: [char; 7] = ['a', '_', '1', 'é', '漢', '𝄞', '\u{301}'];
 
 /// (kind, program with `□` where the text goes)
-pub const POSITIONS: [(&str, &str); 49] = [
+pub const POSITIONS: [(&str, &str); 53] = [
+    // literals that end exactly at the end of the file
+    ("eof:string", "const C: String = \"□\""),
+    ("eof:char", "const C: char = '□'"),
+    ("eof:fstring", "const C: String = f\"□\""),
+    ("eof:fstring-in-fn", "fn f() -> String { f\"□{1}□\""),
     // positions whose text is cited by a type error close to the end of the file
     ("cited:string-literal", "fn f() -> i32 { \"□\" }"),
     ("cited:char-literal", "fn f() -> i32 { '□' }"),
